@@ -39,6 +39,21 @@ enum Scenario {
     /// and answered / left pending / timed out; then A continues (or, WebSocketClient with an assumed peer frame
     /// limit, is refused locally as too large), call C is issued, and the pending calls are answered in `order`.
     Gated { kind: Kind, a_notify: bool, refused: bool, b: BMode, order: Vec<usize> },
+    /// WebSocketClient: a pushed notify reusing the id of in-flight call `j`, in every state of the notification
+    /// subscription (it goes to the subscriber if there is a live one, is dropped otherwise, and never completes a call)
+    WsSub { n: usize, perm: Vec<usize>, j: usize, pos: usize, sub: Sub },
+}
+
+#[derive(Clone, Copy, Debug, PartialEq)]
+enum Sub {
+    /// `unsubscribe_notifies` was called
+    Unsubscribed,
+    /// the receiver was dropped without unsubscribing (stale slot)
+    ReceiverDropped,
+    /// unsubscribed, then subscribed again
+    Resubscribed,
+    /// receiver dropped, then subscribed again (silently replaces the stale slot)
+    ResubscribedOverStale,
 }
 
 #[derive(Clone, Copy, Debug, PartialEq)]
@@ -163,6 +178,17 @@ fn scenarios(tier: Tier) -> Vec<Scenario> {
             }
         }
     }
+    for n in 1..=3usize {
+        for perm in permutations(n) {
+            for j in 0..n {
+                for pos in 0..=n {
+                    for sub in [Sub::Unsubscribed, Sub::ReceiverDropped, Sub::Resubscribed, Sub::ResubscribedOverStale] {
+                        v.push(Scenario::WsSub { n, perm: perm.clone(), j, pos, sub });
+                    }
+                }
+            }
+        }
+    }
     for kind in [Kind::Async, Kind::Ws] {
         for a_notify in [false, true] {
             for refused in [false, true] {
@@ -185,9 +211,35 @@ fn scenarios(tier: Tier) -> Vec<Scenario> {
 type Bad = Vec<(String, String)>;
 
 async fn run_perm(kind: Kind, n: usize, perm: &[usize], extra: Extra, pos: usize, burst: bool) -> (Bad, u64) {
+    run_perm_sub(kind, n, perm, extra, pos, burst, None).await
+}
+
+async fn run_perm_sub(kind: Kind, n: usize, perm: &[usize], extra: Extra, pos: usize, burst: bool, sub: Option<Sub>) -> (Bad, u64) {
     let mut bad = Bad::new();
     let mut flags = 0u64;
     let Conn { cli, mut peer, mut notifies } = clients::connect(kind).await;
+    if let (Some(sub), Cli::Ws(c)) = (sub, &cli) {
+        match sub {
+            Sub::Unsubscribed => {
+                c.unsubscribe_notifies();
+                notifies = None;
+            }
+            Sub::ReceiverDropped => {
+                notifies = None;
+            }
+            Sub::Resubscribed | Sub::ResubscribedOverStale => {
+                if sub == Sub::Resubscribed {
+                    c.unsubscribe_notifies();
+                }
+                notifies = None; // (drops the first receiver)
+                match c.subscribe_notifies() {
+                    Ok(rx) => notifies = Some(rx),
+                    Err(_) => return (vec![("C04:harness".into(), format!("subscribe_notifies refused after {sub:?}"))], 0),
+                }
+            }
+        }
+        flags |= 2048;
+    }
     let tags: Vec<u64> = (0..n as u64).map(|i| 100 + i).collect();
     let calls: Vec<_> = tags.iter().map(|t| tokio::spawn(cli.call(*t, None, 0))).collect();
     let reqs = match peer.drain_requests().await {
@@ -245,7 +297,7 @@ async fn run_perm(kind: Kind, n: usize, perm: &[usize], extra: Extra, pos: usize
             (Res::OkOther(_), Some(t)) if t == tags[i] => flags |= 2,
             _ => bad.push((
                 format!("C04:wrong-response:{}", match r { Res::Hang => "hang", Res::Id(_) => "other-calls-response", _ => "error" }),
-                format!("{}: call #{i} (request id {own}) returned {r:?}; n={n} reply order {perm:?} extra {extra:?}@{pos} burst={burst}", kind.name()),
+                format!("{}: call #{i} (request id {own}) returned {r:?}; n={n} reply order {perm:?} extra {extra:?}@{pos} burst={burst}{}", kind.name(), sub.map(|s| format!(" subscription {s:?}")).unwrap_or_default()),
             )),
         }
     }
@@ -258,7 +310,7 @@ async fn run_perm(kind: Kind, n: usize, perm: &[usize], extra: Extra, pos: usize
             }
         }
         if got != expected_notifies {
-            bad.push(("C04:notify-misrouted".into(), format!("WebSocketClient: subscriber received {got} notifications, {expected_notifies} were pushed; extra {extra:?}@{pos}, reply order {perm:?}")));
+            bad.push(("C04:notify-misrouted".into(), format!("WebSocketClient: subscriber received {got} notifications, {expected_notifies} were pushed; extra {extra:?}@{pos}, reply order {perm:?}, subscription {sub:?}")));
         }
         if expected_notifies > 0 {
             flags |= 4;
@@ -886,10 +938,11 @@ pub fn run(tier: Tier) -> ! {
                     Scenario::BigBatch { kind: Some(k), n, order } => run_big_batch(*k, *n, *order).await,
                     Scenario::BigBatch { kind: None, n, order } => run_big_batch_blocking(*n, *order),
                     Scenario::Gated { kind, a_notify, refused, b, order } => run_gated(*kind, *a_notify, *refused, *b, order).await,
+                    Scenario::WsSub { n, perm, j, pos, sub } => run_perm_sub(Kind::Ws, *n, perm, Extra::NotifyReuse(*j), *pos, false, Some(*sub)).await,
                 }
             });
             *n += 1;
-            for bit in 0..11 {
+            for bit in 0..12 {
                 if flags & (1 << bit) != 0 {
                     *flagc.entry(bit).or_insert(0) += 1;
                 }
@@ -916,7 +969,7 @@ pub fn run(tier: Tier) -> ! {
         ctx.violation(k, w, json!({"scenario": format!("{:?}", all[i]), "index": i, "tier": tier.name()}));
     }
     let g = |b: u64| flagc.get(&b).copied().unwrap_or(0);
-    if !ctx.has_violation() && (g(0) == 0 || g(2) == 0 || g(3) == 0 || g(4) == 0 || g(5) == 0 || g(6) == 0 || g(9) == 0 || g(10) == 0) {
+    if !ctx.has_violation() && (g(0) == 0 || g(2) == 0 || g(3) == 0 || g(4) == 0 || g(5) == 0 || g(6) == 0 || g(9) == 0 || g(10) == 0 || g(11) == 0) {
         ctx.machinery("vacuous exploration: a scenario family never ran");
     }
     let coverage = json!({
@@ -936,8 +989,9 @@ pub fn run(tier: Tier) -> ! {
             "blocking_client_batch_scenarios": g(6),
             "caller_preempted_inside_its_call": g(9),
             "preempted_caller_refused_as_too_large": g(10),
+            "notify_reusing_an_id_under_other_subscription_states": g(11),
         },
-        "rule": "blocking Client over loopback TCP with n caller threads (n <= 4, thorough 5): every reply permutation x extra frame x position, and batch_json under every reply order; for both tokio clients over an in-memory stream on a paused single-threaded runtime: n concurrent calls, every permutation of the n replies, one extra frame (unknown id / duplicate of reply j / notify reusing in-flight id j) at every position, delivered one by one or in one burst; batch_json under every reply order; AsyncClient replies injected while the request's write is blocked after 48+k bytes; a caller (call or notify, on its own OS thread) parked inside its own call at body serialization while another call is issued and answered / left pending / timed out, then resumed (or refused locally as larger than the WebSocket client's assumed peer limit), then a third call, the pending ones answered in every order: request ids on the wire pairwise distinct and every call gets its own response",
+        "rule": "blocking Client over loopback TCP with n caller threads (n <= 4, thorough 5): every reply permutation x extra frame x position, and batch_json under every reply order; for both tokio clients over an in-memory stream on a paused single-threaded runtime: n concurrent calls, every permutation of the n replies, one extra frame (unknown id / duplicate of reply j / notify reusing in-flight id j) at every position, delivered one by one or in one burst; batch_json under every reply order; AsyncClient replies injected while the request's write is blocked after 48+k bytes; a caller (call or notify, on its own OS thread) parked inside its own call at body serialization while another call is issued and answered / left pending / timed out, then resumed (or refused locally as larger than the WebSocket client's assumed peer limit), then a third call, the pending ones answered in every order: request ids on the wire pairwise distinct and every call gets its own response; WebSocketClient: the notify reusing an in-flight id (n <= 3, every reply order, victim and position) with the subscription unsubscribed / its receiver dropped / re-subscribed / re-subscribed over a stale slot",
     });
     ctx.finish(
         "model_checking",
@@ -966,6 +1020,7 @@ pub fn replay(case: &Value) -> Result<(), String> {
             Scenario::BigBatch { kind: Some(k), n, order } => run_big_batch(*k, *n, *order).await,
             Scenario::BigBatch { kind: None, n, order } => run_big_batch_blocking(*n, *order),
             Scenario::Gated { kind, a_notify, refused, b, order } => run_gated(*kind, *a_notify, *refused, *b, order).await,
+            Scenario::WsSub { n, perm, j, pos, sub } => run_perm_sub(Kind::Ws, *n, perm, Extra::NotifyReuse(*j), *pos, false, Some(*sub)).await,
         }
     });
     if b.is_empty() { Ok(()) } else { Err(b.into_iter().map(|(k, w)| format!("{k}: {w}")).collect::<Vec<_>>().join("\n")) }
